@@ -8,6 +8,9 @@
 (*   Epoch   e tab                   epoch entropy; sets the shuffled base           *)
 (*   Slot    t permute again nga pk off                                              *)
 (*           permute / again = permute(e, t) before / after other calls;             *)
+(*           tstar / star = slot t - R and permute(e, t - R) called right after, for G-star;  *)
+(*           held_permute / held_star / held_nga = the returned slices re-read after   *)
+(*           every call of the epoch group has been made;                             *)
 (*           nga = NewGuranatorAssignments(e, t, validators).CoreAssignments;        *)
 (*           pk[i] = 1 validator i returned unchanged, 0 zeroed, 2 anything else;    *)
 (*           off = indices of validators whose key is in the offenders mark          *)
@@ -58,6 +61,9 @@ JudgeSlot(e) ==
      ELSE Why(e.permute # want, "permute_differs_from_P")
           \cup Why(e.nga # want, "NewGuranatorAssignments_differs_from_P")
           \cup Why(e.again # e.permute, "assignment_not_deterministic")
+          \cup Why(Len(e.tstar) > 0 /\ e.star # Assign(sh, ModLE(e.tstar, par.E), par.C, par.R), "permute_for_the_previous_rotation_differs_from_P")
+          \cup Why(e.held_permute # want \/ e.held_nga # want \/ (Len(e.tstar) > 0 /\ e.held_star # Assign(sh, ModLE(e.tstar, par.E), par.C, par.R)),
+                   "assignment_changed_by_later_calls")
           \cup Why((par.V <= 64 \/ tE = 0) /\ \E c \in 0..(par.C - 1) : CountOf(e.permute, c) \notin {par.V \div par.C, (par.V + par.C - 1) \div par.C}, "core_share_wrong")
           \cup Why(Len(e.pk) # par.V \/ \E i \in 1..Min2(Len(e.pk), par.V) : e.pk[i] # (IF (i - 1) \in ToSet(e.off) THEN 0 ELSE 1), "offender_keys_not_replaced_per_Phi")
           \cup (IF last.ok /\ e.t = IncLE(last.t) /\ tE # 0 /\ Len(e.permute) = Len(last.got)
